@@ -160,6 +160,18 @@ def parseCase (ws : List String) : Option State :=
       match parseHex (w.drop 10).toString with
       | some bs => if bs.length ≤ maxChunk then some { st with rs := { st.rs with buf := bs, room := 0 } } else none
       | none => none
+    -- a BIG handed-over buffer: `init=rbufr:<len>:<hex unit>` = the unit repeated, cut at <len> bytes
+    else if w.startsWith "init=rbufr:" then
+      match ((w.drop 11).toString.splitOn ":") with
+      | [n, u] =>
+        match n.toNat?, parseHex u with
+        | some n, some unit =>
+          if n ≤ 40000 && !unit.isEmpty && unit.length ≤ 256 && u != "-" then
+            let buf := ((List.replicate (n / unit.length + 1) unit).flatten).take n
+            some { st with rs := { st.rs with buf := buf, room := 0 } }
+          else none
+        | _, _ => none
+      | _ => none
     else if w.startsWith "init=" then none
     else some st) init
 
@@ -208,6 +220,16 @@ def step (st : State) (line : String) : State × String :=
     | some sel =>
       if via == "map" || via == "replace" || via == "parts" then
         ({ st with sel := sel }, s!"ok {rdCounters st.rs} {wrCounters st.ws}")
+      else (st, "bad-op")
+    | none => (st, "bad-op")
+  -- `BytesCodec::decode` directly on a buffer of n bytes (i*31+7 mod 256), until `None`
+  | ["bdec", n] => match n.toNat? with
+    | some n =>
+      if n ≤ 40000 then
+        let data := (List.range n).map (fun i => (i * 31 + 7) % 256)
+        match Framed.bytesDecode data with
+        | .frame f _ => (st, s!"[{showBytes f}]")
+        | _ => (st, "[]")
       else (st, "bad-op")
     | none => (st, "bad-op")
   | ["mapio"] => (st, s!"ok {rdCounters st.rs} {wrCounters st.ws}")
